@@ -84,3 +84,14 @@ def fill_template(name, consts):
     for k, v in consts.items():
         txt = txt.replace("@%s@" % k, tla_set(v))
     return txt
+
+
+def nonull(x):
+    """JSON null is not a TLA+ value: replace None by "-" everywhere."""
+    if x is None:
+        return "-"
+    if isinstance(x, dict):
+        return {k: nonull(v) for k, v in x.items()}
+    if isinstance(x, (list, tuple)):
+        return [nonull(v) for v in x]
+    return x
